@@ -382,6 +382,10 @@ func (g *hostileGen) stmt(d int) string {
 		l, r := g.hy()
 		return "{{" + l + " " + g.filtered(1) + " " + r + "}}"
 	case 6:
+		if g.pick("spoof", 6) == 0 {
+			// a template may overwrite the loop record the loop tags rely on
+			return g.tag("assign forloop = " + g.filtered(0))
+		}
 		return g.tag("assign t" + fmt.Sprint(g.pick("tv", 3)) + " = " + g.filtered(1))
 	case 7:
 		if g.inCap {
